@@ -70,7 +70,7 @@ def body_fp(cfg, darsia):
         org = [None] * dim
         for m in range(dim):
             a, _sg = orient[m]
-            o = S.fp(f"o{a}", -1e10, 1e10)
+            o = S.fp(f"o{a}", -1e10, 1e10, default=lambda rng: rng.uniform(-1, 1))
             h = dims[m] / shape[m]
             S.assume(S.and_(S.le(o, 1e6 * h), S.le(-1e6 * h, o)), check=False)
             org[a] = o
